@@ -14,3 +14,4 @@ open AgdbSearch
 #print axioms isInfixB_iff
 #print axioms C15_distance
 #print axioms C15_cross_type_counterexample
+#print axioms C15_path_edge_distance_counterexample
